@@ -2,6 +2,9 @@
 // kinds: conv     q (4 x N), r (3 x M): log q, log(-q), exp(log q), exp r, log(exp r)
 //        sumdiff  q0 (4 x 1), r (3 x N), ql (4 x M): sum(q0, r), diff(sum, q0), diff(ql, q0)
 //        mean     w (N x 1), q (4 x N) [, q2 (some columns negated), w3/q3 (permuted)]
+// Every template is instantiated three times: with plain MatrixXd arguments, with Block expressions cut out of
+// larger matrices (M.middleRows(k, 4), M.col(j).middleRows(k, 4), W.col(j) — the way sigma_point.cpp calls them)
+// and with Ref<const MatrixXd>; `via_equal` reports whether the three results are bit-identical.
 #define VF_MAIN
 #include "common.hpp"
 #include <BayesFilters/utils.h>
@@ -9,37 +12,93 @@
 using namespace bfl;
 using namespace Eigen;
 
+// m embedded in a larger matrix: two junk rows above, one below
+static MatrixXd framed(const MatrixXd& m) {
+    MatrixXd big = MatrixXd::Constant(m.rows() + 3, m.cols(), 321.5);
+    big.middleRows(2, m.rows()) = m;
+    return big;
+}
+// a column vector embedded as column 1, rows 1.. of a larger matrix
+static MatrixXd framed_col(const MatrixXd& v) {
+    MatrixXd H = MatrixXd::Constant(v.rows() + 2, 3, -9.25);
+    H.col(1).middleRows(1, v.rows()) = v.col(0);
+    return H;
+}
+
+static bool via_ok = true;
+static void same(const MatrixXd& a, const MatrixXd& b) { via_ok = via_ok && vf::bit_equal(a, b); }
+
+static MatrixXd do_log(const MatrixXd& q) {
+    MatrixXd r;
+    { vf::Entry e("utils::quaternion_to_rotation_vector"); r = utils::quaternion_to_rotation_vector(q); }
+    const MatrixXd big = framed(q); Ref<const MatrixXd> ref(q);
+    { vf::Entry e("utils::quaternion_to_rotation_vector[Block]"); same(r, utils::quaternion_to_rotation_vector(big.middleRows(2, 4))); }
+    { vf::Entry e("utils::quaternion_to_rotation_vector[Ref]"); same(r, utils::quaternion_to_rotation_vector(ref)); }
+    return r;
+}
+static MatrixXd do_exp(const MatrixXd& r) {
+    MatrixXd q;
+    { vf::Entry e("utils::rotation_vector_to_quaternion"); q = utils::rotation_vector_to_quaternion(r); }
+    const MatrixXd big = framed(r); Ref<const MatrixXd> ref(r);
+    { vf::Entry e("utils::rotation_vector_to_quaternion[Block]"); same(q, utils::rotation_vector_to_quaternion(big.middleRows(2, 3))); }
+    { vf::Entry e("utils::rotation_vector_to_quaternion[Ref]"); same(q, utils::rotation_vector_to_quaternion(ref)); }
+    return q;
+}
+static MatrixXd do_sum(const MatrixXd& q0, const MatrixXd& r) {
+    MatrixXd s;
+    { vf::Entry e("utils::sum_quaternion_rotation_vector"); s = utils::sum_quaternion_rotation_vector(q0, r); }
+    const MatrixXd H = framed_col(q0), big = framed(r); Ref<const MatrixXd> rq(q0), rr(r);
+    { vf::Entry e("utils::sum_quaternion_rotation_vector[Block]"); same(s, utils::sum_quaternion_rotation_vector(H.col(1).middleRows(1, 4), big.middleRows(2, 3))); }
+    { vf::Entry e("utils::sum_quaternion_rotation_vector[Ref]"); same(s, utils::sum_quaternion_rotation_vector(rq, rr)); }
+    return s;
+}
+static MatrixXd do_diff(const MatrixXd& ql, const MatrixXd& q0) {
+    MatrixXd d;
+    { vf::Entry e("utils::diff_quaternion"); d = utils::diff_quaternion(ql, q0); }
+    const MatrixXd H = framed_col(q0), big = framed(ql); Ref<const MatrixXd> rq(q0), rl(ql);
+    { vf::Entry e("utils::diff_quaternion[Block]"); same(d, utils::diff_quaternion(big.middleRows(2, 4), H.col(1).middleRows(1, 4))); }
+    { vf::Entry e("utils::diff_quaternion[Ref]"); same(d, utils::diff_quaternion(rl, rq)); }
+    return d;
+}
+static MatrixXd do_mean(const MatrixXd& w, const MatrixXd& q) {
+    MatrixXd m;
+    { vf::Entry e("utils::mean_quaternion"); m = utils::mean_quaternion(w, q); }
+    const MatrixXd W = framed_col(w), big = framed(q); Ref<const MatrixXd> rw(w), rq(q);
+    { vf::Entry e("utils::mean_quaternion[Block]"); same(m, utils::mean_quaternion(W.col(1).middleRows(1, w.rows()), big.middleRows(2, 4))); }
+    { vf::Entry e("utils::mean_quaternion[Ref]"); same(m, utils::mean_quaternion(rw, rq)); }
+    return m;
+}
+
 int main() {
     vf::Case c;
     while (vf::read_case(std::cin, c)) {
         vf::out_begin(c.id);
+        via_ok = true;
         if (c.kind == "conv") {
             const MatrixXd& q = c.mat("q"); const MatrixXd& r = c.mat("r");
             MatrixXd q_copy = q, r_copy = r;
-            MatrixXd log_q, log_negq, exp_log_q, exp_r, log_exp_r;
-            { vf::Entry e("utils::quaternion_to_rotation_vector"); log_q = utils::quaternion_to_rotation_vector(q); }
-            { vf::Entry e("utils::quaternion_to_rotation_vector"); MatrixXd nq = -q; log_negq = utils::quaternion_to_rotation_vector(nq); }
-            { vf::Entry e("utils::rotation_vector_to_quaternion"); exp_log_q = utils::rotation_vector_to_quaternion(log_q); }
-            { vf::Entry e("utils::rotation_vector_to_quaternion"); exp_r = utils::rotation_vector_to_quaternion(r); }
-            { vf::Entry e("utils::quaternion_to_rotation_vector"); log_exp_r = utils::quaternion_to_rotation_vector(exp_r); }
+            MatrixXd log_q = do_log(q);
+            MatrixXd nq = -q;
+            MatrixXd log_negq = do_log(nq);
+            MatrixXd exp_log_q = do_exp(log_q);
+            MatrixXd exp_r = do_exp(r);
+            MatrixXd log_exp_r = do_log(exp_r);
             vf::out_mat("log_q", log_q); vf::out_mat("log_negq", log_negq); vf::out_mat("exp_log_q", exp_log_q);
             vf::out_mat("exp_r", exp_r); vf::out_mat("log_exp_r", log_exp_r);
             vf::out_int("inputs_unchanged", vf::bit_equal(q, q_copy) && vf::bit_equal(r, r_copy) ? 1 : 0);
         } else if (c.kind == "sumdiff") {
             const MatrixXd& q0 = c.mat("q0"); const MatrixXd& r = c.mat("r"); const MatrixXd& ql = c.mat("ql");
-            MatrixXd s, ds, d;
-            { vf::Entry e("utils::sum_quaternion_rotation_vector"); s = utils::sum_quaternion_rotation_vector(q0, r); }
-            { vf::Entry e("utils::diff_quaternion"); ds = utils::diff_quaternion(s, q0); }
-            { vf::Entry e("utils::diff_quaternion"); d = utils::diff_quaternion(ql, q0); }
+            MatrixXd s = do_sum(q0, r);
+            MatrixXd ds = do_diff(s, q0);
+            MatrixXd d = do_diff(ql, q0);
             vf::out_mat("sum", s); vf::out_mat("diff_sum", ds); vf::out_mat("diff", d);
         } else if (c.kind == "mean") {
             const MatrixXd& w = c.mat("w"); const MatrixXd& q = c.mat("q");
-            MatrixXd m;
-            { vf::Entry e("utils::mean_quaternion"); m = utils::mean_quaternion(w, q); }
-            vf::out_mat("mean", m);
-            if (c.has_mat("q2")) { vf::Entry e("utils::mean_quaternion"); MatrixXd m2 = utils::mean_quaternion(w, c.mat("q2")); vf::out_mat("mean_neg", m2); }
-            if (c.has_mat("q3")) { vf::Entry e("utils::mean_quaternion"); MatrixXd m3 = utils::mean_quaternion(c.mat("w3"), c.mat("q3")); vf::out_mat("mean_perm", m3); }
+            vf::out_mat("mean", do_mean(w, q));
+            if (c.has_mat("q2")) vf::out_mat("mean_neg", do_mean(w, c.mat("q2")));
+            if (c.has_mat("q3")) vf::out_mat("mean_perm", do_mean(c.mat("w3"), c.mat("q3")));
         }
+        vf::out_int("via_equal", via_ok ? 1 : 0);
         vf::out_end();
     }
     return 0;
